@@ -78,12 +78,17 @@ func (scp *Isolated) Stop() {
 
 // Err return cumulative error if the scope context contains any error
 func (scp *Isolated) Err() error {
-	return goaterr.ToError(scp.errors)
+	return goaterr.ToError(scp.Errors())
 }
 
 // Errors return scope errors
 func (scp *Isolated) Errors() []error {
-	return scp.errors
+	scp.errorsMU.Lock()
+	defer scp.errorsMU.Unlock()
+	if len(scp.errors) == 0 {
+		return nil
+	}
+	return append([]error{}, scp.errors...)
 }
 
 // AppendErrors append many errors to scope (skip nil errors)
